@@ -244,6 +244,10 @@ def check(model, rep):
     rep.ob('R04.3', sq, 'rotation block = from_quat(q).as_matrix(), then TMtoTAA()', s_ok and sync,
            'setQuat does not write the same block with the same (default) convention and re-derive the six-vector')
 
+    from .c02 import closure_obligations
+    helpers = [f for f in model.funcs_in(HELP) if f.name in ('localToGlobal', 'globalToLocal', 'TAAtoTM', 'TMtoTAA')]
+    n = closure_obligations(model, rep, 'R04.5', list(tm.methods.values()) + helpers, 'the transform algebra (constructor sync, inv, localToGlobal / globalToLocal)')
+    rep.floor('R04.5', 'shared primitives under the transform algebra', len(n), 8)
     # ---------------------------------------------------------------- R04.4
     rep.rule('R04.4', 'LocalToGlobal = ref*rel, GlobalToLocal = inv(ref)*rel (position and rotation-vector formulas)')
     for name, want_pos, want_rod in (
